@@ -315,6 +315,10 @@ const smallEqMax = 130
 // smallMax returns a bound <= smallEqMax on min(la, lb) if one can be
 // established (statically, or by a few feasibility probes for atoms).
 func (e *Exec) smallMax(la, lb *smt.Term) (int, bool) {
+	if e.reason == "" {
+		e.reason = "smallmax"
+		defer func() { e.reason = "" }()
+	}
 	if e.initMode {
 		return 0, false
 	}
@@ -355,4 +359,13 @@ func (e *Exec) smallMax(la, lb *smt.Term) (int, bool) {
 	}
 	e.path.extra[key] = res
 	return res, res >= 0
+}
+
+// bytesEq: equality of two []byte values; modelled encodings (blobs) are equal
+// iff they encode deep-equal values of the same kind.
+func (e *Exec) bytesEq(a, b Bytes) *smt.Term {
+	if a.Blob != nil && b.Blob != nil {
+		return e.deepEq(a, b)
+	}
+	return e.viewEq(bytesView(a), bytesView(b))
 }
